@@ -34,6 +34,9 @@ def run(ctx):
         return
     generator_rules(ctx, fv, tab)
     bits_rule(ctx)
+    # pykmertools.KmerGenerator is an observation point of this property: it must be the core iterator over the same bytes
+    from . import c13
+    c13.kmer_binding_rules(dep(ctx, "C01", "C13"))
 
 
 def generator_rules(ctx, fv, tab):
